@@ -3,6 +3,12 @@ from ._intrinsic import _intrinsic
 from ._primitive_type import _PrimitiveType
 
 
+def _trunc_div(lhs: int, rhs: int) -> int:
+    # exact division rounding towards zero ('/' in VHDL)
+    # _trunc_div(lhs, rhs) is not exact for operands wider than a float mantissa
+    return lhs // rhs if (lhs < 0) == (rhs < 0) else -(-lhs // rhs)
+
+
 class Integer(_PrimitiveType):
     @staticmethod
     def decay(value: int | Integer) -> int:
@@ -186,7 +192,7 @@ class Integer(_PrimitiveType):
 
             if rhs == 0:
                 return Integer()
-            return Integer(int(lhs / rhs))
+            return Integer(_trunc_div(lhs, rhs))
         else:
             return NotImplemented
 
@@ -213,7 +219,7 @@ class Integer(_PrimitiveType):
             if rhs == 0:
                 return Integer()
 
-            return Integer(lhs - rhs * int(lhs / rhs))
+            return Integer(lhs - rhs * _trunc_div(lhs, rhs))
         else:
             return NotImplemented
 
